@@ -6,6 +6,7 @@
   `openW / step / close` is the write session (w64_open, the write call's bookkeeping, header updates, w64_close).
 -/
 import SfProofs.W64Session
+import SfProofs.W64Parse
 namespace Sf.C04W64
 open Sf Sf.W64 Sf.CafW64
 
@@ -74,20 +75,27 @@ example : parse (image { codec := 0x10, ch := 1, sr := 8000 } 3 [1, 2, 3] ++ [9,
 
 /-- `stale_frames_ignored` for W64 (sample-granular encodings): whatever SF_INFO.frames held at open, and however the
     frames were split over write calls and interleaved with header updates, the closed file is `image c N data` — an
-    expression in which the stale value does not occur.  (w64_open does NOT clear sf.frames: the value reaches the
-    header written at open — see `w64_open_header_shows_stale_frames` — but every later header is written from
-    recomputed lengths.  For the block codecs the stale value survives: KF-W64-STALE-FRAMES, outside this model.) -/
+    expression in which the stale value does not occur.  (Before the repair of w64_open the value reached the header
+    written at open — `w64_open_header_shows_stale_frames_old_rule` — and, for the block codecs, the closed file.) -/
 theorem stale_frames_ignored_w64 (c : Cfg) (hwf : c.wf) (stale : Int) (ops : List Op) (hv : ∀ op ∈ ops, op.valid c) :
     (close c (run c (openW c stale) ops)).bytes = image c (sessFrames ops) (sessData ops) := by
   have i := run_inv (wf_bw_pos hwf) ops (openW_inv c stale) hv
   have := (writeHeader_inv i (wf_bw_pos hwf) true).2.1 rfl
   simpa [close, image, tail] using this
 
-/-- the witness that the caller's value is not ignored everywhere: the 'fact' chunk of the header written by sf_open
-    holds it until the first header update (a crash before that leaves it on disk) -/
-theorem w64_open_header_shows_stale_frames :
-    ofLE (((openW { codec := 0x06, ch := 1, sr := 8000 } 99999).bytes.drop 104).take 8) = 99999 ∧
-    (openW { codec := 0x06, ch := 1, sr := 8000 } 99999).bytes ≠ (openW { codec := 0x06, ch := 1, sr := 8000 } 0).bytes := by
+/-- since the repair of w64_open the header written by sf_open does not depend on the caller's value either: it is the
+    header of an empty file whose lengths are not yet known (riff size 0, data size 24, fact 0) -/
+theorem w64_open_header_ignores_stale_frames (c : Cfg) (stale : Int) :
+    (openW c stale).bytes = hdrRaw c 0 0 0 ∧ (openW c stale).bytes = (openW c 0).bytes := by
+  refine ⟨?_, rfl⟩
+  simp [openW, writeHeader, writeAt]
+
+/-- the rule before the repair (`openW_old`): the 'fact' chunk of the header written by sf_open held the caller's value
+    until the first header update — a crash before that left it on disk -/
+theorem w64_open_header_shows_stale_frames_old_rule :
+    ofLE (((openW_old { codec := 0x06, ch := 1, sr := 8000 } 99999).bytes.drop 104).take 8) = 99999 ∧
+    (openW_old { codec := 0x06, ch := 1, sr := 8000 } 99999).bytes ≠ (openW_old { codec := 0x06, ch := 1, sr := 8000 } 0).bytes ∧
+    ofLE (((openW_old { codec := 0x02, ch := 1, sr := 8000 } 0).bytes.drop 96).take 8) = 23 := by
   decide +kernel
 
 /-- C11 `snapshot_valid` for W64: when SFC_UPDATE_HEADER_NOW returns, the store is byte for byte the closed file of the
@@ -109,5 +117,45 @@ theorem auto_write_is_snapshot_w64 (c : Cfg) (hwf : c.wf) (stale : Int) (ops : L
 example : ({ codec := 0x10, ch := 1, sr := 8000 } : Cfg).wf ∧ (∀ op ∈ [Op.write 2 [1, 2], .update, .auto true, .write 1 [3]], op.valid { codec := 0x10, ch := 1, sr := 8000 }) ∧
     (close { codec := 0x10, ch := 1, sr := 8000 } (run { codec := 0x10, ch := 1, sr := 8000 } (openW { codec := 0x10, ch := 1, sr := 8000 } 77) [Op.write 2 [1, 2], .update, .auto true, .write 1 [3]])).bytes =
       image { codec := 0x10, ch := 1, sr := 8000 } 3 [1, 2, 3] := by decide +kernel
+
+/-! ### re-opening the closed file -/
+
+/-- `reopen_info` for W64: for every configuration sf_open accepts, every N and every encoded audio of N frames, the reader
+    of the closed file reports the requested channels, W64 | encoding, the requested rate and frames = N; the audio starts
+    right after the header.  (Guard 2^62: the reader treats larger data sizes as damage.) -/
+theorem w64_reopen_info (c : Cfg) (hwf : c.wf) (n : Nat) (data : List Byte) (hd : data.length = n * c.bw)
+    (hsz : hdrLen c + n * c.bw + 24 < 2 ^ 62) :
+    parse (image c n data) =
+      .ok { fmtWord := 0x0B0000 + c.codec, ch := c.ch, sr := c.sr, frames := n, dataoffset := hdrLen c, datalength := n * c.bw } :=
+  parse_image c hwf n data hd hsz
+
+/-- `read_to_eof`: the reported data region is exactly the audio written -/
+theorem w64_reopen_data (c : Cfg) (n : Nat) (data : List Byte) (hd : data.length = n * c.bw) :
+    ((image c n data).drop (hdrLen c)).take (n * c.bw) = data := by
+  have h := hdr_length c n
+  simp only [image, tail, List.append_nil]
+  rw [← h, ← hd]
+  simp
+
+/-- the closed file of ANY valid write session, and the crash-point copy after ANY header update, re-open with the frames
+    written so far (C04 and C11 `snapshot_valid` with the parser in the statement) -/
+theorem w64_session_reopen (c : Cfg) (hwf : c.wf) (stale : Int) (ops : List Op) (hv : ∀ op ∈ ops, op.valid c)
+    (hsz : hdrLen c + sessFrames ops * c.bw + 24 < 2 ^ 62) :
+    parse (close c (run c (openW c stale) ops)).bytes =
+      .ok { fmtWord := 0x0B0000 + c.codec, ch := c.ch, sr := c.sr, frames := sessFrames ops, dataoffset := hdrLen c,
+            datalength := sessFrames ops * c.bw } ∧
+    parse (step c (run c (openW c stale) ops) .update).bytes =
+      .ok { fmtWord := 0x0B0000 + c.codec, ch := c.ch, sr := c.sr, frames := sessFrames ops, dataoffset := hdrLen c,
+            datalength := sessFrames ops * c.bw } := by
+  have i := run_inv (wf_bw_pos hwf) ops (openW_inv c stale) hv
+  rw [stale_frames_ignored_w64 c hwf stale ops hv, snapshot_valid_w64 c hwf stale ops hv]
+  have := parse_image c hwf (sessFrames ops) (sessData ops) (by simpa using i.dlen) hsz
+  exact ⟨this, this⟩
+
+/-- KF-W64-READER-LENGTH as a proved witness (foreign files only): two bytes appended to a library-written 3-frame u-law file
+    are reported as two more frames — the reader takes the audio length from the file length, not from the 'data' size -/
+theorem w64_trailing_bytes_counted :
+    parse (image { codec := 0x10, ch := 1, sr := 8000 } 3 [1, 2, 3] ++ [9, 9]) =
+      .ok { fmtWord := 0x0B0010, ch := 1, sr := 8000, frames := 5, dataoffset := 136, datalength := 5 } := by decide +kernel
 
 end Sf.C04W64
